@@ -53,14 +53,7 @@ def jobs():
     add("islice[stop]", (IT, "islice"), (RI, "islice"), isl("n"))
     add("islice[None]", (IT, "islice"), (RI, "islice"), isl(None))
     add("islice[start,None]", (IT, "islice"), (RI, "islice"), isl("n", None))
-    # shapes with start+stop or a step need the declared modular invariant of DESIGN A.1 (not built): bounded stand-in -
-    # concrete parameter triples, symbolic items, streams unrolled to `unroll` pulls, labelled bounded in the evidence
-    for start, stop, step in ((0, 5, 3), (1, 4, 2), (2, None, 2), (0, 4, 1), (1, 1, 1), (3, 2, 1), (None, 3, 2), (2, 6, 3)):
-        def mk_c(ctx, env, t=(start, stop, step)):
-            s = env.source("a")
-            return dict(iargs=[s] + list(t), rargs=[s] + list(t))
-        add(f"islice[bounded {start},{stop},{step}]", (IT, "islice"), (RI, "islice"), mk_c, props=("C01", "C05", "C06", "C04"),
-            opts={"mode": "bounded", "unroll": 8}, max_paths=20000)
+    # shapes with start+stop or a step: contracts/jobs_islice.py (declared modular invariant, DESIGN A.1)
     add("batched[n]", (IT, "batched"), (RI, "batched"), one_src([lambda ctx, env: SInt(z3.Int("n"))]), opts={"fresh_ok": True, "window": lambda v: SInt(z3.Int("n"))})
     add("batched[n,strict]", (IT, "batched"), (RI, "batched"), one_src([lambda ctx, env: SInt(z3.Int("n")), C(True)]), opts={"fresh_ok": True, "window": lambda v: SInt(z3.Int("n"))})
     # collection builders and sorted
